@@ -264,6 +264,36 @@ fn run_unique_index_case(r: &mut Rng, rep: &mut Report, k: u64, fixed: Option<Ve
     rep.case(&format!("uidx {}", k), true);
 }
 
+/// several unique indexes: no duplicate non-NULL key after any statement; scenario statements that
+/// must be rejected are rejected
+fn run_ucase(c: &UCase, rep: &mut Report) {
+    let mut db = uidx_db(c);
+    let mut rejected = 0;
+    for (prelude, stmt, must_reject) in &c.stmts {
+        let mut ok_prelude = true;
+        for q in prelude {
+            if !db.exec(q).is_ok() {
+                ok_prelude = false; // e.g. the staging table refuses a duplicate primary key
+            }
+        }
+        if !ok_prelude {
+            continue;
+        }
+        let out = db.exec(stmt);
+        rep.count(&format!("uidx{}_{}", c.idx_cols.len(), if stmt.contains("SELECT * FROM S") { "bulk" } else if stmt.starts_with("INSERT") { if c.trigger { "insert_trigger" } else { "insert_values" } } else if stmt.starts_with("UPDATE") { "update" } else { "delete" }));
+        if !out.is_ok() {
+            rejected += 1;
+        }
+        let bad = uidx_dups(&db, &c.idx_cols);
+        if out.is_panic() || !bad.is_empty() || (*must_reject && out.is_ok()) {
+            rep.fail(FailKind::Oracle, None, "table with several unique indexes: duplicate non-NULL key stored (or a violating statement accepted)",
+                &format!("{}\n=> {}\nduplicates in: {:?}\nrows: {}", db.log.join(";\n"), out.brief(), bad, canon::rows_seq(&db.scan("T").unwrap_or_default())));
+            break;
+        }
+    }
+    rep.case(&c.name, rejected > 0);
+}
+
 fn li(v: &[i64]) -> Vec<Lit> {
     v.iter().map(|i| if *i < 0 { Lit::Null } else { Lit::I(*i) }).collect()
 }
@@ -367,6 +397,14 @@ fn main() {
         run_unique_index_case(&mut r, &mut rep, 100001, Some(vec![
             St::Ins { rows: vec![li(&[1, 2, 3]), li(&[5, 0, 3]), li(&[4, 0, 0])], replace: false },
         ]));
+    }
+    for c in uidx_scenarios() {
+        run_ucase(&c, &mut rep);
+        rep.count("multi_unique_index_scenarios");
+    }
+    for k in 0..args.n(3000, 60000) {
+        let mut r = rng.fork();
+        run_ucase(&gen_uidx(&mut r, k), &mut rep);
     }
     let n = args.n(6000, 120000);
     for k in 0..n {
